@@ -5,11 +5,16 @@ for spec in sys.argv[1:]:
     pid, mk = spec.split("-", 1)
     src = f"/tmp/agentscratch/{pid}/{mk}"
     dst = f"/verif/seeded/{pid}-{mk}"
+    CONF = "/tmp/confirm"
+    if os.environ.get("ROUND") == "2":   # round-2 agents: /tmp/wt2/<id>.out/<mk>, kept as <id>-r2<mk>
+        src = f"/tmp/wt2/{pid}.out/{mk}"
+        dst = f"/verif/seeded/{pid}-r2{mk}"
+        CONF = "/tmp/confirm2"
     os.makedirs(dst, exist_ok=True)
     for f in ("patch.diff", "demo.py", "notes.txt"):
         shutil.copy(os.path.join(src, f), os.path.join(dst, f))
-    res = open(f"/tmp/confirm/{pid}-{mk}.result").read() if os.path.exists(f"/tmp/confirm/{pid}-{mk}.result") else ""
-    suite = open(f"/tmp/confirm/{pid}-{mk}.suite").read() if os.path.exists(f"/tmp/confirm/{pid}-{mk}.suite") else ""
+    res = open(f"{CONF}/{pid}-{mk}.result").read() if os.path.exists(f"{CONF}/{pid}-{mk}.result") else ""
+    suite = open(f"{CONF}/{pid}-{mk}.suite").read() if os.path.exists(f"{CONF}/{pid}-{mk}.suite") else ""
     ok = "demo_orig_exit=0" in res and "demo_patched_exit=1" in res and "134 passed" in suite
     meta = {"property": pid, "origin": "independent sub-agent given only the property text and a scratch worktree",
             "needs_to_manifest": open(os.path.join(src, "notes.txt")).read().strip()[:1500],
